@@ -531,6 +531,13 @@ unsigned int ares_dns_rr_get_ttl(const ares_dns_rr_t *rr)
   if (rr == NULL) {
     return 0;
   }
+  /* Records handed out by the query cache report the time spent cached */
+  if (rr->parent != NULL && rr->parent->ttl_decrement != 0) {
+    if (rr->parent->ttl_decrement > rr->ttl) {
+      return 0;
+    }
+    return rr->ttl - rr->parent->ttl_decrement;
+  }
   return rr->ttl;
 }
 
